@@ -8,10 +8,10 @@ from sa.core import AnalysisError, Repo, Report, call_name, kwarg, parent, unpar
 from sa.rules.common import calls_named, compose_operands, rtext, enclosing
 from sa.selftest import Edit, Variant
 
-from sa.texts import T as _T
+from sa.texts import T as _TX
 
-EXPLANATION = _T["C02"]["explanation"] + " Not decided: " + _T["C02"]["not_decided"] + "."
-ASSUMPTIONS = _T["C02"]["assumptions"]
+EXPLANATION = _TX["C02"]["explanation"] + " Not decided: " + _TX["C02"]["not_decided"] + "."
+ASSUMPTIONS = _TX["C02"]["assumptions"]
 P = "C02"
 
 def run(repo: Repo, rep: Report):
@@ -33,6 +33,10 @@ def run(repo: Repo, rep: Report):
     sem.check_simplify(repo, rep, {"transform": "R-ORDER.must-transform", "document-order": "R-SITE.document-order"})
     sempath.check_apply_transform(repo, rep, "R-ORDER.must-transform")
     groups.check_replace_and_swap(repo, rep, "R-SITE.document-order")
+    # shapes_to_paths is part of the flattening: the outline of every basic shape (rules of C09)
+    from sa.rules import c09
+    rep.rule("R-SITE.shape-outline", "rect (corner radii defaulting and clamping), circle, ellipse, line, polygon, polyline become the outline SVG 1.1 chapter 9 prescribes (rule of C09)")
+    c09._check_builders(repo, rep, rule="R-SITE.shape-outline")
 
 
 _S = "svg"
@@ -55,6 +59,8 @@ VARIANTS = [
             [("R-SITE.compose-order", "_resolve_use")]),
     Variant("unnest: transform attribute first", [Edit(_S, "SVG._unnest_svg", "(transform, Affine2D.fromstring(svg.attrib[\"transform\"]))", "(Affine2D.fromstring(svg.attrib[\"transform\"]), transform)")],
             [("R-SITE.viewport", "_unnest_svg")]),
+    Variant("rect radii clamped to the shorter side", [Edit("svg_types", "SVGRect.__post_init__", "self.rx = min(self.rx, self.width / 2)", "self.rx = min(self.rx, min(self.width, self.height) / 2)")],
+            [("R-SITE.shape-outline", "SVGRect")]),
     Variant("silent: compose_ltr((a, b)) rewritten as b @ a", [Edit(_S, "_element_transform", "Affine2D.compose_ltr((Affine2D.fromstring(raw), current_transform))", "current_transform @ Affine2D.fromstring(raw)")], silent=True),
     Variant("silent: local renamed", [Edit(_S, "_element_transform", "raw", "raw_value", count=3)], silent=True),
 ]
